@@ -60,6 +60,7 @@ type Policy struct {
 	Depth int    `json:"depth,omitempty"` // pct: number of priority change points
 	Span  int    `json:"span,omitempty"`  // pct: step range over which change points are drawn
 	Stick int    `json:"stick,omitempty"` // sticky: percent probability of staying with the same task
+	Pool  int    `json:"pool,omitempty"`  // behaviour of simrt.Pool (the sync.Pool replacement): 0 always reuse, 1 never, 2 alternate
 }
 
 // Options configures one simulated run.
@@ -235,6 +236,7 @@ func Run(t *testing.T, opt Options, body func()) (res Result) {
 	synctest.Test(t, func(t *testing.T) {
 		pk := newPicker(opt.Policy, opt.Picks)
 		simrt.Begin(opt.NumCPU, opt.Entropy)
+		simrt.SetPoolMode(opt.Policy.Pool)
 		defer simrt.End()
 		main := simrt.Child("main")
 		go simrt.RunTask(main, body)
